@@ -131,6 +131,7 @@ func genRestart(r *core.Rand, tier string) *stCase {
 	c.Cmds = append(c.Cmds, stCmd{Op: "open"})
 	c.Cmds = append(c.Cmds, probes(c)...)
 	c.Cmds = append(c.Cmds, kProbes(c)...)
+	c.Cmds = append(c.Cmds, optProbes(r, c)...)
 	c.Cmds = append(c.Cmds, stCmd{Op: "state"}, stCmd{Op: "close"}, stCmd{Op: "ls"})
 	return c
 }
@@ -167,7 +168,7 @@ func nonTrivialRestart(lines, replies []string) bool {
 func init() {
 	register(&core.Typed[stCase]{
 		StreamName: "restart", Prop: "C09",
-		RuleText: "1..4 sessions of (open with freshly constructed templates; (add* [Flush])*; Close) plus a final reopen, memtable limits from below one document to the 100 MB default, templates flat/hnsw/trained ivf/none x text x metadata, occasional background flush steps and (a quarter of the cases) compactions run to completion; vector, text and metadata probes after opens and before closes (metadata also through filter GROUPS alone and groups + filters; after the final reopen every modality also with k = exactly the size of the previous answer and with one more); directory listing after every Close; a case is non-trivial when a probe in a session >= 2 had to find documents acknowledged in an earlier session (must>0) and the implementation returned a non-empty answer or the known defect was reproduced; distinct = distinct request streams",
+		RuleText: "1..4 sessions of (open with freshly constructed templates; (add* [Flush])*; Close) plus a final reopen, memtable limits from below one document to the 100 MB default, templates flat/hnsw/trained ivf/none x text x metadata, occasional background flush steps and (a quarter of the cases) compactions run to completion; vector, text and metadata probes after opens and before closes (metadata also through filter GROUPS alone and groups + filters; after the final reopen every modality also with k = exactly the size of the previous answer and with one more, and option probes — threshold, aggregation, nprobes / efSearch, fusion — compared with a reference in-memory hybrid index fed every acknowledged add of all sessions); directory listing after every Close; a case is non-trivial when a probe in a session >= 2 had to find documents acknowledged in an earlier session (must>0) and the implementation returned a non-empty answer or the known defect was reproduced; distinct = distinct request streams",
 		NCases: func(tier string) int {
 			if tier == "thorough" {
 				return 1500
